@@ -85,7 +85,15 @@ func ruleCellEscape(c *eng.Ctx) {
 		// sources: loads of a field named Text of a cell element, or string elements of a [][]string / []string row
 		state := map[ssa.Value]int{}
 		var work []ssa.Value
-		eng.Instrs(fn, false, func(in ssa.Instruction) {
+		// row/cell writing may be extracted into helpers of the package: the sources of the
+		// whole cluster are tracked (the escape helpers themselves receive raw text by design)
+		var cluster []*ssa.Function
+		for _, h := range eng.Cluster(fn, 2) {
+			if h == fn || escaperSummary(c.P, h, cache) == 0 {
+				cluster = append(cluster, h)
+			}
+		}
+		srcScan := func(in ssa.Instruction) {
 			v, ok := in.(ssa.Value)
 			if !ok {
 				return
@@ -110,7 +118,10 @@ func ruleCellEscape(c *eng.Ctx) {
 				state[v] = 0
 				work = append(work, v)
 			}
-		})
+		}
+		for _, h := range cluster {
+			eng.Instrs(h, false, srcScan)
+		}
 		if len(work) == 0 {
 			c.Viol(R, name, fn.Pos(), "no cell text source found: the writer no longer emits cell texts")
 			continue
